@@ -89,6 +89,8 @@ Fixpoint sexp_val (fuel : nat) (x : sexp) : option gval :=
                 else if atom_is a "strpanic" then Some (GStringer None)
                 else if atom_is a "strnilptr" then Some (GStringer None)
                 else if atom_is a "strselfpanic" then Some (GStringer None)
+                else if atom_is a "strpanicinvop" then Some (GStringer None)
+                else if atom_is a "strpanicinvopw" then Some (GStringer None)
                 else if atom_is a "nilmap" then Some (GMap [])
                 else None
     | SList [Atom t; Atom v] =>
@@ -104,6 +106,7 @@ Fixpoint sexp_val (fuel : nat) (x : sexp) : option gval :=
         else if atom_is t "strslice" then option_map (fun b => GStringer (Some b)) (atom_bytes v)
         else if atom_is t "strver" then option_map (fun b => GStringer (Some b)) (atom_bytes v)
         else if atom_is t "strverptr" then option_map (fun b => GStringer (Some b)) (atom_bytes v)
+        else if atom_is t "strsame" then option_map (fun b => GStringer (Some b)) (atom_bytes v)
         else if atom_is t "strreent" then option_map (fun b => GStringer (Some b)) (atom_bytes v)
         else if atom_is t "o" then option_map GOther (atom_N v)
         else None
